@@ -336,10 +336,10 @@ class Runner:
             elif which == "xprv":
                 got, want = b.xprv(index=i), rb85.xprv(m, i)
             elif which == "hex":
-                nb = self.rnd.choice([16, 32, 64])
+                nb = self.rnd.choice([24, 32, 64])      # sizes shared with pwd / mnemonic word counts: same number under another application
                 got, want = b.hex(num_bytes=nb, index=i), rb85.hex_(m, nb, i)
             elif which == "pwd":
-                ln = self.rnd.choice([20, 21, 86])
+                ln = self.rnd.choice([24, 32, 64])
                 got, want = b.pwd(pwd_len=ln, index=i), rb85.pwd(m, ln, i)
             else:
                 wc = self.rnd.choice([12, 24])
@@ -349,6 +349,12 @@ class Runner:
         except Exception as e:  # noqa
             return self.ev("bip85." + which, self.world.base[0], {"index": i}, False, "value", e, mech="bip85.raised")
         self.ev("bip85." + which, self.world.base[0], {"index": i}, got == want, want, got, mech="bip85")
+        if self.rnd.random() < 0.5 and not getattr(self, "_in_bip85_pair", False):
+            self._in_bip85_pair = True        # immediately another BIP85 request on the same object (back-to-back pairs)
+            try:
+                self.op_bip85()
+            finally:
+                self._in_bip85_pair = False
 
     def op_paper(self):
         w = self.world
